@@ -50,19 +50,19 @@ theorem text_no_panic (raw : Bytes) : textIdx raw = .ok (text raw) := textIdx_re
 /-- `Tar`: `raw[:512]`, `raw[:100]`, `raw[148:156]` are guarded by the length test -/
 theorem tar_no_panic (raw : Bytes) (h : AllBytes raw) : tarIdx raw = .ok (tar raw) := tarIdx_refines raw h
 
-/-- what `Model/Idx.lean` transliterates: per function, the index and slice expressions it may evaluate (as a set) -/
+/-- what `Model/Idx.lean` transliterates: per function, the index and slice expressions it may evaluate (as a set; the names of variables are written `_`, as the extractor writes them) -/
 def modelledIndexSets : List (String × List String) := [
-  ("charset.FromPlain", ["content[:i]", "content[i:]", "content[i]"]),
-  ("charset.ascii", ["textChars[b]"]),
-  ("charset.fromMetaElement", ["s[0]", "s[1:]", "s[:closeQuote]", "s[:end]", "s[csLoc+len(\"charset\"):]"]),
-  ("charset.latin", ["textChars[b]"]),
-  ("charset.trimLWS", ["in[firstNonWS:]", "in[firstNonWS]"]),
-  ("charset.xmlEncoding", ["s[idx+len(param):]", "v[0]", "v[1:]", "v[1:idx+1]"]),
-  ("magic.Tar", ["raw[148:156]", "raw[:100]", "raw[:sizeRecord]"]),
-  ("magic.dropCR", ["data[0:len(data)-1]", "data[len(data)-1]"]),
-  ("magic.dropLastLine", ["b[:i]", "b[i]"]),
-  ("magic.trimLWS", ["in[firstNonWS:]", "in[firstNonWS]"]),
-  ("magic.trimRWS", ["in[:lastNonWS+1]", "in[lastNonWS]"])]
+  ("charset.FromPlain", ["_[:_]", "_[_:]", "_[_]"]),
+  ("charset.ascii", ["_[_]"]),
+  ("charset.fromMetaElement", ["_[0]", "_[1:]", "_[:_]", "_[_+len(\"_\"):]"]),
+  ("charset.latin", ["_[_]"]),
+  ("charset.trimLWS", ["_[_:]", "_[_]"]),
+  ("charset.xmlEncoding", ["_[0]", "_[1 : _+1]", "_[1:]", "_[_+len(_):]"]),
+  ("magic.Tar", ["_[148:156]", "_[:100]", "_[:_]"]),
+  ("magic.dropCR", ["_[0 : len(_)-1]", "_[len(_)-1]"]),
+  ("magic.dropLastLine", ["_[:_]", "_[_]"]),
+  ("magic.trimLWS", ["_[_:]", "_[_]"]),
+  ("magic.trimRWS", ["_[:_+1]", "_[_]"])]
 
 /-- **regenerated tie**: every index and slice expression of these functions in the current source is one of
     those `Model/Idx.lean` transliterates for that function (a set inclusion: dropped, repeated or moved
